@@ -25,7 +25,7 @@ from ..cfg import CFG, Node
 from ..core import Func, U, own_nodes
 from ..ctx import Ctx
 from ..dataflow import solve
-from ..facts import Facts, FactsProblem, T, lin, stable
+from ..facts import Facts, FactsProblem, T, _pred_ok, assume, lin, stable
 from ..report import RuleResult, alpha
 
 EXEMPT_JUMP = ("the opener index is decreased by `jumps[openerIdx] + 1`; a jump is a count of skipped delimiters (0, or a difference of "
@@ -314,6 +314,12 @@ def rule_loopvar(c: Ctx) -> RuleResult:
             for (p, lab) in back:
                 z = prob.edge(p, res[p.id], lab, h)
                 if z is not None:
+                    # a cyclic path goes on through the loop test: what the test's success says about the new values belongs to
+                    # the path (`m = s.find(x, end)` at the bottom, `while m != -1` at the top: found, so m >= end)
+                    if not (isinstance(loop.test, ast.Constant)) and _pred_ok(loop.test):
+                        pre_ = z.copy()
+                        assume(z, loop.test, True)
+                        prob._find_refine(z, pre_, loop.test, True, 0)
                     outs.append((p, z))
             how = ""
             for (g, v), (_, why) in zip(ghosts[h.id], cands[h.id]):
